@@ -126,6 +126,24 @@ KANI_UNITS = {
         ],
         "module": "kani_error_class",
     },
+    "sinks_bounded": {
+        "crate": "minicbor",
+        "src": "units/kani/minicbor/sinks_bounded.rs",
+        "inject": [
+            {"copy": ("units/kani/minicbor/sinks_bounded.rs", "minicbor/src/kani_sinks_bounded.rs")},
+            {"append": ("minicbor/src/lib.rs", "#[cfg(all(kani, feature = \"alloc\"))] mod kani_sinks_bounded;")},
+        ],
+        "module": "kani_sinks_bounded",
+    },
+    "containers_bounded": {
+        "crate": "minicbor",
+        "src": "units/kani/minicbor/containers_bounded.rs",
+        "inject": [
+            {"copy": ("units/kani/minicbor/containers_bounded.rs", "minicbor/src/kani_containers_bounded.rs")},
+            {"append": ("minicbor/src/lib.rs", "#[cfg(all(kani, feature = \"alloc\"))] mod kani_containers_bounded;")},
+        ],
+        "module": "kani_containers_bounded",
+    },
     "roundtrip": {
         "crate": "minicbor",
         "src": "units/kani/minicbor/roundtrip.rs",
